@@ -195,6 +195,7 @@ class Program:
                 raise AnalysisError(f"cannot parse {rel}: {e}")
         _norm.REBOUND_ATTRS = _norm.collect_rebound_attrs(raw)
         _norm.NEVER_PASSED = _norm.collect_never_passed(raw)
+        _norm.CLASS_CONSTS = _norm.collect_class_consts(raw)
         _norm._REBOUND_KNOWN = True
         for p in sorted(pkg.rglob("*.py")):
             rel = str(p.relative_to(self.root))
